@@ -116,6 +116,15 @@ func Malform(kind, payload string, sizes []int) string {
 		return fmt.Sprintf("\n#%d\n%s\n##\n", n+7, payload)
 	case "oversize": // size far beyond the message
 		return fmt.Sprintf("\n#%d\n%s\n##\n", n+100000, payload)
+	case "size-plus-3": // the size reaches exactly over the end-of-chunks marker
+		return fmt.Sprintf("\n#%d\n%s\n##\n", n+3, payload)
+	case "swallow": // a first chunk whose size covers the later chunks' headers and the marker
+		if n > 8 {
+			rest := Frame11(payload[4:], nil)
+			rest = strings.TrimSuffix(rest, "\n")
+
+			return fmt.Sprintf("\n#%d\n%s%s\n", 4+len(rest), payload[:4], rest)
+		}
 	case "size-smaller": // size smaller than the data
 		if n > 3 {
 			return fmt.Sprintf("\n#%d\n%s\n##\n", n-3, payload)
